@@ -2,7 +2,7 @@
    Only ExtrOcamlBasic is used: Z, positive, nat, list stay inductive. *)
 From Coq Require Import ZArith List Bool Extraction ExtrOcamlBasic.
 From PBC Require Import Base.CInt Gen.LeafC Gen.LeafC_BE Impl.Desc Impl.Mem Impl.Enc Impl.Size Impl.Pack
-     Impl.PackBuf Impl.Unpack Impl.Check Impl.BufSimple Impl.WF Impl.Canon Spec.Defect GenModel.Ranges GenModel.Gen.
+     Impl.PackBuf Impl.Unpack Impl.Check Impl.BufSimple Impl.WF Impl.Canon Spec.Defect GenModel.Ranges GenModel.Gen GenModel.LookupModel GenModel.Service.
 Extraction Language OCaml.
 Set Extraction KeepSingleton.
 Extraction Blacklist List String Int.
@@ -13,4 +13,8 @@ Separate Extraction
   WF.wf_msg Canon.canon_msg Canon.env_ok Defect.defect_msg
   Ranges.mk_ranges Ranges.dedup_sorted
   Gen.gen_all Gen.init_state Gen.file_supported
+  LookupModel.name_search LookupModel.msg_field_by_name LookupModel.msg_field_by_number
+  LookupModel.enum_value_by_name LookupModel.enum_value_by_number LookupModel.svc_method_by_name
+  Service.gen_all_svc_code Service.stub_index Service.invoke Service.macro_init Service.call_stub
+  Service.generated_init Service.service_destroy Service.all_handlers_null
   Z.of_nat Z.to_nat Z.eqb Z.ltb Z.add Z.mul Z.sub Z.opp Z.shiftl Z.lor Z.land Z.modulo Z.div Z.pow.
